@@ -52,6 +52,14 @@ func (p *Prog) desc(v ssa.Value, depth int) string {
 				}
 				return "local:" + typeShort(a.Type())
 			}
+			if fv, ok := x.X.(*ssa.FreeVar); ok {
+				// the enclosing function's variable seen from a literal: describe it as the enclosing function would
+				if a := boundCell(fv); a != nil {
+					if sv := singleStore(a); sv != nil {
+						return p.desc(sv, depth+1)
+					}
+				}
+			}
 			return "*" + p.desc(x.X, depth+1)
 		case token.NOT:
 			switch d := p.desc(x.X, depth+1); d {
@@ -696,7 +704,15 @@ func ResolveCell(v ssa.Value) ssa.Value {
 		}
 		a, ok := u.X.(*ssa.Alloc)
 		if !ok {
-			return v
+			// the cell seen from inside a function literal: the free variable is bound to the parent's cell
+			fv, isFV := u.X.(*ssa.FreeVar)
+			if !isFV {
+				return v
+			}
+			a = boundCell(fv)
+			if a == nil {
+				return v
+			}
 		}
 		sv := singleStore(a)
 		if sv == nil {
@@ -705,6 +721,38 @@ func ResolveCell(v ssa.Value) ssa.Value {
 		v = sv
 	}
 	return v
+}
+
+// boundCell: the local cell of the enclosing function that a literal's free variable is bound to (nil unless the
+// literal is created at exactly one place and the binding is a plain cell).
+func boundCell(fv *ssa.FreeVar) *ssa.Alloc {
+	lit := fv.Parent()
+	par := lit.Parent()
+	if par == nil {
+		return nil
+	}
+	idx := -1
+	for i, q := range lit.FreeVars {
+		if q == fv {
+			idx = i
+		}
+	}
+	var cell *ssa.Alloc
+	n := 0
+	for _, b := range par.Blocks {
+		for _, in := range b.Instrs {
+			mc, ok := in.(*ssa.MakeClosure)
+			if !ok || mc.Fn != ssa.Value(lit) || idx < 0 || idx >= len(mc.Bindings) {
+				continue
+			}
+			n++
+			cell, _ = mc.Bindings[idx].(*ssa.Alloc)
+		}
+	}
+	if n != 1 {
+		return nil
+	}
+	return cell
 }
 
 // expandBoolPhi: a branch on a value that is a phi — a materialised short-circuit, a flag or an error assigned on
